@@ -165,11 +165,36 @@ _FLIP = {ast.Eq: ast.NotEq, ast.NotEq: ast.Eq, ast.In: ast.NotIn, ast.NotIn: ast
          ast.Lt: ast.GtE, ast.GtE: ast.Lt, ast.Gt: ast.LtE, ast.LtE: ast.Gt}
 
 
+def _numeric(e):
+    '''an expression that can only be a number (so that an ordering comparison with it is a total order)'''
+    if isinstance(e, ast.Constant):
+        return isinstance(e.value, (int, float)) and not isinstance(e.value, bool)
+    if isinstance(e, ast.Call) and isinstance(e.func, ast.Name) and e.func.id in ('len', 'int', 'float', 'abs', 'ord', 'round'):
+        return True
+    if isinstance(e, ast.Call) and isinstance(e.func, ast.Attribute) and e.func.attr in ('count', 'index', 'find', 'rfind'):
+        return True
+    if isinstance(e, ast.UnaryOp) and isinstance(e.op, (ast.USub, ast.UAdd)):
+        return _numeric(e.operand)
+    if isinstance(e, ast.BinOp) and isinstance(e.op, (ast.Add, ast.Sub, ast.Mult, ast.FloorDiv, ast.Mod)):
+        return _numeric(e.left) and _numeric(e.right)
+    return False
+
+
+def _flippable(e):
+    '''may `not (a OP b)` be written with the opposite operator?  ==, is, in always; an ordering only between numbers (sets and
+    other partial orders have a <= b and a > b both false)'''
+    if not (isinstance(e, ast.Compare) and len(e.ops) == 1 and type(e.ops[0]) in _FLIP):
+        return False
+    if isinstance(e.ops[0], (ast.Lt, ast.LtE, ast.Gt, ast.GtE)):
+        return _numeric(e.left) or _numeric(e.comparators[0])
+    return True
+
+
 def neg(e):
     '''negation of a condition in negation normal form'''
     if isinstance(e, ast.UnaryOp) and isinstance(e.op, ast.Not):
         return e.operand
-    if isinstance(e, ast.Compare) and len(e.ops) == 1 and type(e.ops[0]) in _FLIP:
+    if _flippable(e):
         return at(ast.Compare(left=e.left, ops=[_FLIP[type(e.ops[0])]()], comparators=e.comparators), e)
     if isinstance(e, ast.BoolOp):
         op = ast.Or() if isinstance(e.op, ast.And) else ast.And()
@@ -202,7 +227,7 @@ class _Expr(ast.NodeTransformer):
         if isinstance(node.op, ast.Not):
             o = node.operand
             if isinstance(o, (ast.Compare, ast.BoolOp)) or (isinstance(o, ast.UnaryOp) and isinstance(o.op, ast.Not)):
-                if not (isinstance(o, ast.Compare) and (len(o.ops) != 1 or type(o.ops[0]) not in _FLIP)):
+                if not (isinstance(o, ast.Compare) and not _flippable(o)):
                     return self.visit(neg(o)) if isinstance(o, ast.UnaryOp) else neg(o)
             # not len(x) -> not x
             if isinstance(o, ast.Call) and isinstance(o.func, ast.Name) and o.func.id == 'len' and len(o.args) == 1 and not o.keywords:
@@ -243,6 +268,12 @@ class _Expr(ast.NodeTransformer):
     def visit_Call(self, node):
         self.generic_visit(node)
         f = node.func
+        # set(a).issubset(b) -> set(a) <= set(b)      set(a).issuperset(b) -> set(a) >= set(b)
+        if isinstance(f, ast.Attribute) and f.attr in ('issubset', 'issuperset') and len(node.args) == 1 and not node.keywords and _setish(f.value):
+            other = node.args[0]
+            if not _setish(other):
+                other = at(ast.Call(func=ast.Name(id='set', ctx=ast.Load()), args=[other], keywords=[]), node)
+            return at(ast.Compare(left=f.value, ops=[ast.LtE() if f.attr == 'issubset' else ast.GtE()], comparators=[other]), node)
         if isinstance(f, ast.Name):
             # isinstance(x, (A, B)) -> isinstance(x, A) or isinstance(x, B)
             if f.id == 'isinstance' and len(node.args) == 2 and isinstance(node.args[1], ast.Tuple) and node.args[1].elts:
@@ -428,6 +459,28 @@ def _format_to_percent(fmt, nargs):
     return ''.join(out), order
 
 
+def _setish(e):
+    '''an expression that can only be a set'''
+    if isinstance(e, (ast.Set, ast.SetComp)):
+        return True
+    return isinstance(e, ast.Call) and isinstance(e.func, ast.Name) and e.func.id in ('set', 'frozenset')
+
+
+def _truth_idioms(test):
+    '''in a truth-value position:  set(a) - set(b)  (non-empty difference)  is  not (set(a) <= set(b))'''
+    if isinstance(test, ast.BoolOp):
+        test.values = [_truth_idioms(v) for v in test.values]
+        return test
+    if isinstance(test, ast.UnaryOp) and isinstance(test.op, ast.Not):
+        inner = _truth_idioms(test.operand)
+        if inner is not test.operand:
+            return neg(inner)
+        return test
+    if isinstance(test, ast.BinOp) and isinstance(test.op, ast.Sub) and _setish(test.left) and _setish(test.right):
+        return at(ast.UnaryOp(op=ast.Not(), operand=at(ast.Compare(left=test.left, ops=[ast.LtE()], comparators=[test.right]), test)), test)
+    return test
+
+
 def _strip_bool(test):
     '''in a truth-value position bool(x) is x'''
     if isinstance(test, ast.Call) and isinstance(test.func, ast.Name) and test.func.id == 'bool' and len(test.args) == 1 and not test.keywords:
@@ -609,8 +662,60 @@ class FunctionNormalizer(object):
             self.pass_sink()
             self.pass_temps()
             self.pass_structure()
+            self.pass_commute()
         ast.fix_missing_locations(self.fn)
         return self.fn
+
+    # -- independent neighbouring stores in one order ------------------------------------------------------
+    def pass_commute(self):
+        '''two neighbouring statements that only store pure values into attributes (directly or under pure tests) and touch
+        disjoint data are put into one order (by their text).  Nothing that calls, yields, jumps or may raise in a way the
+        function is sensitive to is ever moved.'''
+        def simple_store(st):
+            if isinstance(st, ast.Assign) and len(st.targets) == 1 and isinstance(st.targets[0], ast.Attribute) and \
+                    isinstance(st.targets[0].value, ast.Name) and is_pure(st.value) and not self._sensitive(st.value):
+                return True
+            return False
+
+        def movable(st):
+            if simple_store(st):
+                return True
+            if isinstance(st, ast.If) and is_pure(st.test) and not self._sensitive(st.test):
+                return all(simple_store(x) for x in st.body) and all(simple_store(x) for x in st.orelse)
+            return False
+
+        def effects(st):
+            w_attrs, w_names, r_attrs, r_names = set(), set(), set(), set()
+            for n in ast.walk(st):
+                if isinstance(n, ast.Attribute):
+                    (w_attrs if isinstance(n.ctx, (ast.Store, ast.Del)) else r_attrs).add(n.attr)
+                elif isinstance(n, ast.Name):
+                    (w_names if isinstance(n.ctx, (ast.Store, ast.Del)) else r_names).add(n.id)
+                elif isinstance(n, ast.Subscript) and isinstance(n.ctx, (ast.Store, ast.Del)):
+                    w_attrs.add('[]')
+                elif isinstance(n, ast.Subscript):
+                    r_attrs.add('[]')
+            return w_attrs, w_names, r_attrs, r_names
+
+        def independent(a, b):
+            wa, wna, ra, rna = effects(a)
+            wb, wnb, rb, rnb = effects(b)
+            if wa & (wb | rb) or wb & ra:
+                return False
+            if wna & (wnb | rnb) or wnb & rna:
+                return False
+            return True
+        for owner, fld, lst in list(walk_lists(self.fn)):
+            changed = True
+            rounds = 0
+            while changed and rounds < 50:
+                changed = False
+                rounds += 1
+                for i in range(len(lst) - 1):
+                    a, b = lst[i], lst[i + 1]
+                    if movable(a) and movable(b) and independent(a, b) and dump(b) < dump(a):
+                        lst[i], lst[i + 1] = b, a
+                        changed = True
 
     def run_light(self, reference_names):
         '''only what is NEW relative to the reference spelling of the function is folded away: locals the reference
@@ -663,7 +768,7 @@ class FunctionNormalizer(object):
             if isinstance(val, ast.expr):
                 new = tr.visit(val)
                 if fld == 'test':
-                    new = _strip_double_not(_strip_bool(new))
+                    new = _truth_idioms(_strip_double_not(_strip_bool(new)))
                 if fld == 'iter' and isinstance(new, ast.Call) and isinstance(new.func, ast.Name) and new.func.id == 'iter' \
                         and len(new.args) == 1:
                     new = new.args[0]
@@ -1287,6 +1392,40 @@ class FunctionNormalizer(object):
                 return False
         return True
 
+    def _unrollable(self, loop):
+        def plain(e):
+            if isinstance(e, (ast.Name, ast.Constant)):
+                return True
+            if isinstance(e, (ast.Tuple, ast.List)):
+                return all(plain(x) for x in e.elts)
+            if isinstance(e, ast.Attribute):
+                return plain(e.value)
+            return False
+        if not all(plain(e) for e in loop.iter.elts):
+            return False
+        t = loop.target
+        if not (isinstance(t, ast.Name) or (isinstance(t, ast.Tuple) and all(isinstance(x, ast.Name) for x in t.elts))):
+            return False
+        if isinstance(t, ast.Tuple) and not all(isinstance(e, (ast.Tuple, ast.List)) and len(e.elts) == len(t.elts) for e in loop.iter.elts):
+            return False
+        read = {n.id for e in loop.iter.elts for n in ast.walk(e) if isinstance(n, ast.Name)}
+        attrs = {n.attr for e in loop.iter.elts for n in ast.walk(e) if isinstance(n, ast.Attribute)}
+        for x in loop.body:
+            if names_stored(x) & read:
+                return False
+            for n in ast.walk(x):
+                if isinstance(n, (ast.Yield, ast.YieldFrom)) and False:
+                    return False
+                if attrs and isinstance(n, ast.Attribute) and isinstance(n.ctx, (ast.Store, ast.Del)) and n.attr in attrs:
+                    return False
+                if attrs and isinstance(n, ast.Call) and not is_pure(n):
+                    return False       # an attribute read by the sequence could be re-bound by a call in the body
+        targets = names_stored(t)
+        if targets & read:
+            return False
+        # the loop variables must not be read after the loop (they keep their last value either way, which is the same)
+        return True
+
     def _immutable_local(self, name):
         '''every value ever bound to the local `name` is a str / number / tuple by construction (so `name += e` re-binds, never mutates)'''
         def immut(e, depth=0):
@@ -1360,6 +1499,15 @@ class FunctionNormalizer(object):
                     nm = st.body[0].targets[0].id
                     lst[i] = at(ast.Assign(targets=[ast.Name(id=nm, ctx=ast.Store())],
                                            value=ast.IfExp(test=st.test, body=st.body[0].value, orelse=st.orelse[0].value)), st)
+                    continue
+                # for v in (a, b, c): BODY   ->   v = a; BODY; v = b; BODY; v = c; BODY     (a literal sequence of plain names / constants)
+                if isinstance(st, ast.For) and isinstance(st.iter, (ast.Tuple, ast.List)) and not st.orelse and 1 <= len(st.iter.elts) <= 6 and \
+                        not _has_free_loop_jump(st.body) and self._unrollable(st):
+                    new_ = []
+                    for el in st.iter.elts:
+                        new_.append(at(ast.Assign(targets=[clone(st.target)], value=clone(el)), st))
+                        new_.extend(clone(x) for x in st.body)
+                    lst[i:i + 1] = new_
                     continue
                 # T[k] = a if c else b   ->   if c: T[k] = a  else: T[k] = b     (the value is evaluated before the target either way)
                 if isinstance(st, ast.Assign) and len(st.targets) == 1 and isinstance(st.targets[0], (ast.Subscript, ast.Attribute)) and \
@@ -2296,6 +2444,15 @@ class FunctionNormalizer(object):
             st.body = [lst[i + 1]]
             del lst[i + 1]
             return True
+        # guard followed by a single conditional jump in tail position: if g: continue; if c: J  ->  if not g and c: J
+        if not st.orelse and len(st.body) == 1 and i == len(lst) - 2 and isinstance(lst[i + 1], ast.If) and not lst[i + 1].orelse and \
+                len(lst[i + 1].body) == 1 and isinstance(lst[i + 1].body[0], JUMPS) and (
+                (kind == 'loop' and isinstance(st.body[0], ast.Continue)) or
+                (kind == 'function' and isinstance(st.body[0], ast.Return) and st.body[0].value is None)):
+            nxt = lst[i + 1]
+            nxt.test = mk_bool(ast.And(), [neg(st.test), nxt.test], nxt)
+            del lst[i]
+            return True
         # `if c: A else: B` last in a loop / function body  ->  if c: A; jump  followed by B
         if is_last and st.orelse and kind in ('loop', 'function') and not ends_in_jump(st.body) and not ends_in_jump(st.orelse):
             jump = ast.Continue() if kind == 'loop' else ast.Return(value=None)
@@ -2684,6 +2841,14 @@ class Normalizer(object):
             p = os.path.join(HERE, 'inventory.json')
             inventory = set(json.load(open(p))['functions']) if os.path.exists(p) else None
         self.inventory = inventory
+        # package-level signatures of the reference tree (xtuml.relate -> [from_instance, to_instance, rel_id, phrase])
+        self.external = {}
+        p = os.path.join(HERE, 'inventory.json')
+        if os.path.exists(p):
+            try:
+                self.external = json.load(open(p)).get('signatures', {})
+            except Exception:
+                self.external = {}
 
     def functions(self, tree, modname):
         '''(qualname, FunctionDef, class-or-None) for module-level functions and methods'''
@@ -2730,6 +2895,22 @@ class Normalizer(object):
                         a = m.args
                         if not (a.vararg or a.kwarg or a.kwonlyargs):
                             out[n.name] = [x.arg for x in a.posonlyargs + a.args][1:]
+        # a pure forwarder  def f(*args, **kwargs): [assert | return] g(*args, **kwargs)  takes the parameters of g
+        for n in tree.body:
+            if isinstance(n, ast.FunctionDef) and n.args.vararg and n.args.kwarg and not (n.args.args or n.args.posonlyargs or n.args.kwonlyargs):
+                body = [x for x in n.body if not (isinstance(x, ast.Expr) and isinstance(x.value, ast.Constant))]
+                if len(body) != 1:
+                    continue
+                st = body[0]
+                e = st.test if isinstance(st, ast.Assert) else (st.value if isinstance(st, (ast.Return, ast.Expr)) else None)
+                if isinstance(e, ast.Call) and len(e.args) == 1 and isinstance(e.args[0], ast.Starred) and isinstance(e.args[0].value, ast.Name) and \
+                        e.args[0].value.id == n.args.vararg.arg and len(e.keywords) == 1 and e.keywords[0].arg is None and \
+                        isinstance(e.keywords[0].value, ast.Name) and e.keywords[0].value.id == n.args.kwarg.arg:
+                    d = ast.unparse(e.func)
+                    if d in out and d != n.name:
+                        out[n.name] = out[d]
+                    elif d in self.external:
+                        out[n.name] = self.external[d]
         return out
 
     def _positional(self, fn, sigs):
